@@ -289,6 +289,17 @@ func genC11(e *emitter, tier string) {
 				}
 			}
 		}
+		if i%8 == 5 {
+			// the same object twice, except that one field of one list member is an explicit
+			// null on the left (a key field with a default, now and then: the member's identity
+			// then differs from that of the member spelling the default out)
+			if a, ok := nullItemField(e, deepCopy(l)); ok {
+				if ta := typedOf(sd, tr, a, true); ta != nil {
+					r = deepCopy(l)
+					l = a
+				}
+			}
+		}
 		tl, tr2 := typedOf(sd, tr, l, true), typedOf(sd, tr, r, true)
 		if tl == nil || tr2 == nil {
 			continue
@@ -297,6 +308,46 @@ func genC11(e *emitter, tier string) {
 		e.line(fmt.Sprintf("(c11 %s %s %s %s %s %s %s)", quote(sd.id), sexpTypeRef(tr), sexpValue(l), sexpValue(r),
 			doCompare(tl, tr2), doCompare(tr2, tl), doCompare(null, tr2)))
 	}
+}
+
+// v with one field of one list member (a map inside a list) set to null; prefers the
+// defaulted key "proto"
+func nullItemField(e *emitter, v interface{}) (interface{}, bool) {
+	var items []M
+	var walk func(x interface{}, inList bool)
+	walk = func(x interface{}, inList bool) {
+		switch t := x.(type) {
+		case M:
+			if inList && len(t) > 0 {
+				items = append(items, t)
+			}
+			for _, k := range sortedKeys(t) {
+				walk(t[k], false)
+			}
+		case L:
+			for _, y := range t {
+				walk(y, true)
+			}
+		}
+	}
+	walk(v, false)
+	if len(items) == 0 {
+		return nil, false
+	}
+	it := items[e.rng.Intn(len(items))]
+	for _, cand := range items {
+		if _, has := cand["proto"]; has && e.rng.Intn(2) == 0 {
+			it = cand
+			break
+		}
+	}
+	keys := sortedKeys(it)
+	k := keys[e.rng.Intn(len(keys))]
+	if _, has := it["proto"]; has && e.rng.Intn(2) == 0 {
+		k = "proto"
+	}
+	it[k] = nil
+	return v, true
 }
 
 // two copies of v in which one randomly chosen map got a null under a key of its own
